@@ -77,7 +77,8 @@ def chain_step(sym, cov, D):
     cov.hit("A:effectively-cancelled-through-plain-ancestors", D >= 3 and ref_eff(0) and not cancelled[0] and not cancelled[1])
 
 
-MUST_REACH = MUST_REACH + ["A:cancelled-behind-shield", "A:effectively-cancelled-through-plain-ancestors"]
+MUST_REACH = MUST_REACH + ["A:cancelled-behind-shield", "A:effectively-cancelled-through-plain-ancestors",
+                           "non-cancellation-exception-through-cancelled-scope", "cancellation-filtered-out-of-exception-group"]
 _units_b = units
 
 
@@ -86,6 +87,11 @@ def units(tier):  # noqa: F811
     for D in (1, 2, 3, 4, 5):
         us.append({"name": "A chain D=%d" % D, "fn": chain_step, "params": {"D": D}, "budget_s": 100, "certify": D <= 3})
     B = 100 if tier == "quick" else 1500
+    for kind in ("value", "group", "group+cancel"):
+        us.append({"name": "D=2 raise %s at 1 cancel=1 cancel2=0" % kind, "fn": scope_tree.scn, "budget_s": B,
+                   "params": {"props": [PROP], "D": 2, "cancel": 1, "cancel2": 0, "raise_at": (1, kind), "T": 1, "J": 1}})
+        us.append({"name": "D=3 raise %s at 2 cancel=1" % kind, "fn": scope_tree.scn, "budget_s": B,
+                   "params": {"props": [PROP], "D": 3, "cancel": 1, "raise_at": (2, kind), "T": 1, "J": 1, "post0": False, "shields": (False, False, False)}})
     us.append({"name": "D=4 cancel=3 cancel2=0 shield-at-1", "fn": scope_tree.scn, "budget_s": B,
                "params": {"props": [PROP], "D": 4, "cancel": 3, "cancel2": 0, "shields": (False, True, False, False), "T": 1, "J": 1, "post0": True}})
     return us
